@@ -359,9 +359,17 @@ def build(spec, arrays):
     return robotools.Labware(spec["name"], spec["rows"], spec["cols"], initial_volumes=init, component_names=spec.get("names"), **kw)
 
 
+def _layout(a):
+    """every other 2-D argument is handed over in column-major (Fortran) memory layout: same content, same shape -
+    results must not depend on the memory layout of an argument"""
+    if isinstance(a, np.ndarray) and a.ndim == 2 and min(a.shape) > 1 and (a.shape[0] + a.shape[1]) % 2 == 0:
+        return np.asfortranarray(a)
+    return a
+
+
 def run_op(wl, labs, op, tipfrac):
     t = op["op"]
-    A = (lambda x: np.array(x) if isinstance(x, list) else x) if op.get("np") else (lambda x: x)  # noqa: E731
+    A = (lambda x: _layout(np.array(x)) if isinstance(x, list) else x) if op.get("np") else (lambda x: x)  # noqa: E731
     kw = dict(op.get("kw") or {})
     if t == "aspirate":
         wl.aspirate(labs[op["lw"]], A(op["wells"]), A(op["vols"]), label=op.get("label"), **kw)
